@@ -360,6 +360,44 @@ func c03Errors(run *mon.Run) {
 	check("nil-hasher", res, err, 2, crypto.IsNilHasherError)
 	res, err = crypto.BatchVerifyBLSSignaturesOneMessage([]crypto.PublicKey{pk, pk}, []crypto.Signature{sig, sig}, m, constHasher("odd", 1, 129))
 	check("odd-hasher", res, err, 2, crypto.IsInvalidHasherSizeError)
+	// hashers that announce 128 bytes but deliver another length (a custom hasher is an untrusted
+	// argument): whatever Verify answers for each index, the batch must answer the same, and if the
+	// batch reports an error every boolean is false. (An EMPTY output is not driven: Verify, Sign and the
+	// batch function all index its first byte and panic; a hasher is not one of the argument kinds C09
+	// quantifies over, so that is recorded as an observation in NOTES.md, not as a finding.)
+	for _, outLen := range []int{1, 64, 96, 127, 129, 192, 256} {
+		outLen := outLen
+		lying := &fixedHasher{name: "lying", size: 128, f: func(d []byte, _ int) []byte { return h.ComputeHash(d)[:min(outLen, 128)] }}
+		if outLen > 128 {
+			lying.f = func(d []byte, _ int) []byte { return append(h.ComputeHash(d), make([]byte, outLen-128)...) }
+		}
+		sk2 := skFromInt(big.NewInt(int64(100 + outLen)))
+		s2, _ := sk2.Sign(m, h)
+		pks := []crypto.PublicKey{pk, sk2.PublicKey(), pk, sk2.PublicKey(), crypto.IdentityBLSPublicKey(), pk}
+		sigs := []crypto.Signature{sig, s2, s2, crypto.BLSInvalidSignature(), sig, sig[:47]}
+		rep := map[string]any{"hasher_output_length": outLen}
+		var res []bool
+		var err error
+		if run.Guard("BatchVerifyBLSSignaturesOneMessage(lying hasher)", rep, func() { res, err = crypto.BatchVerifyBLSSignaturesOneMessage(pks, sigs, m, lying) }) {
+			continue
+		}
+		run.Eval(1)
+		for i := range res {
+			var ind bool
+			var e error
+			if run.Guard("Verify(lying hasher)", rep, func() { ind, e = pks[i].Verify(sigs[i], m, lying) }) {
+				continue
+			}
+			if err != nil && res[i] {
+				run.Violate("C03:error-class:true-with-error", fmt.Sprintf("hasher announcing 128 bytes and returning %d: batch error %v but result[%d] is true", outLen, err, i), rep)
+			} else if res[i] && !(ind && e == nil) {
+				run.Violate("C03:batch-accepts-invalid:lying-hasher", fmt.Sprintf("hasher announcing 128 bytes and returning %d: batch[%d] = true but Verify = (%v,%v) (batch error: %v)", outLen, i, ind, e, err), rep)
+			} else if err == nil && e == nil && res[i] != ind {
+				run.Violate("C03:batch-rejects-valid:lying-hasher", fmt.Sprintf("hasher announcing 128 bytes and returning %d: batch[%d] = %v but Verify = %v", outLen, i, res[i], ind), rep)
+			}
+		}
+		run.Shape(fmt.Sprintf("lying-hasher|%d", outLen))
+	}
 	for pos := 0; pos < 4; pos++ {
 		pks := []crypto.PublicKey{pk, pk, pk, pk}
 		pks[pos] = ec.PublicKey()
